@@ -459,6 +459,36 @@ class Gen:
         return ["reshape", news, newc, child]
 
 
+LATTICE = [[], [1], [2], [3], [1, 2], [2, 1], [2, 3], [3, 2], [1, 2, 3]]
+CSHAPES = [None, [], [2], [3], [2, 3], [3, 2], [1, 2]]
+
+
+def directed_ctor_specs(G, quick=True):
+    """constructor calls over EVERY pair of child shapes of the lattice (Chain, Stack, Concatenate on two axes) and every pair
+    of child cond_shapes: the incompatibilities the constructors document, exhaustively on a small lattice"""
+    out = []
+    leaf = lambda s, c: (["addcond", s, c, [1] * int(np.prod(c))] if c is not None else ["loc", s, G.ints(s)])  # noqa: E731
+    for s1 in LATTICE:
+        for s2 in LATTICE:
+            out.append((["chain", [leaf(s1, None), leaf(s2, None)]], "shapes:chain"))
+            out.append((["stack", [-1, 0][len(out) % 2], [leaf(s1, None), leaf(s2, None)]], "shapes:stack"))
+            for ax in ([0, -1] if quick else [0, 1, -1, -2]):
+                out.append((["concat", ax, [leaf(s1, None), leaf(s2, None)]], "shapes:concat"))
+    sh = [2]
+    for c1 in CSHAPES:
+        for c2 in CSHAPES:
+            out.append((["chain", [leaf(sh, c1), leaf(sh, c2)]], "cshapes:chain"))
+            out.append((["stack", -1, [leaf(sh, c1), leaf(sh, c2)]], "cshapes:stack"))
+            out.append((["concat", -1, [leaf(sh, c1), leaf(sh, c2), leaf(sh, None)]], "cshapes:concat"))
+    for s1 in LATTICE:           # Reshape: every pair (child shape, new shape); cond reshapes
+        for s2 in LATTICE:
+            out.append((["reshape", s2, None, leaf(s1, None)], "shapes:reshape"))
+    for c1 in CSHAPES:
+        for c2 in CSHAPES:
+            out.append((["reshape", None, c2, leaf(sh, c1)], "cshapes:reshape"))
+    return out
+
+
 def depth_of(spec):
     k = spec[0]
     if k in ("chain", "scan"):
@@ -690,20 +720,132 @@ def check_tree(ctx, u, spec, rng, tag, with_oracle=True, n_inputs=1):
         u.count(term + m + kind + str(x.tolist()) + str(None if c is None else c.tolist()),
                 nontrivial=(depth_of(spec) >= 1 and impl[0] == "ok" and not np.array_equal(impl[1], x)) or kind != "good",
                 tag=f"{tag}:{spec[0]}:{kind}")
-        errs = oracle(b, m, x, c, impl) if (kind == "good" and with_oracle) else []
+        errs = oracle(b, m, x, c, impl) if (kind in ("good", "unused-cond") and with_oracle) else []
         if len(u.hashes) % 997 == 1:
             ctx.sample({"term": term[:300], "method": m, "x": x.tolist(), "c": None if c is None else c.tolist(),
                         "model": line[:200], "impl": str(impl)[:200]})
         if not same(impl, model) or errs:
             if not same(impl, model):
                 u.disagreements += 1
-            if kind != "good" and not errs and impl[0] == "ok":
+            if kind in ("wrong-x", "wrong-cond") and not errs and impl[0] == "ok":
                 errs = [f"{m} accepted a malformed input ({kind}: x.shape {x.shape}, condition {None if c is None else c.shape})"]
             ctx.violation(
                 sig=f"{spec[0]}:{m}:{kind}:{'oracle' if errs else 'model-mismatch'}",
                 what=("; ".join(errs) if errs else f"model {line[:160]} != implementation {str(impl)[:160]}"),
                 case=jcase(spec, m, x, c), found_input=bool(errs), unit=u.name, expected=line[:400], observed=str(impl)[:400],
                 broken="correspondence tree-unit / C08_run_is_den", reproducer=REPRO)
+
+
+def nested_chain(G, shape, cshape, depth):
+    """spec of a Chain with nested Chains (also below Invert, where merge_chains must NOT look)"""
+    kids = []
+    for _ in range(G.ri(1, 3)):
+        u = G.r.random()
+        if depth > 0 and u < 0.5:
+            kids.append(nested_chain(G, shape, cshape, depth - 1))
+        elif depth > 0 and u < 0.6:
+            kids.append(["invert", nested_chain(G, shape, cshape, depth - 1)])
+        else:
+            kids.append(G.tree(shape, cshape, G.ri(0, 1)))
+    return ["chain", kids]
+
+
+def chain_unit(ctx, u, G, rng, n):
+    """Chain.merge_chains / __getitem__ on real objects: same function (oracle), and the same as the model's merge_chains / chain_slice"""
+    f = fj()
+    fb = f["fb"]
+    for i in range(n):
+        sh = G.shape()
+        cs = None if rng.random() < 0.5 else [[2], [2, 3], []][G.ri(0, 2)]
+        spec = nested_chain(G, sh, cs, 1 + i % 3)
+        try:
+            b = build(spec)
+            term = S.ser(b)
+        except Exception as e:  # noqa: BLE001
+            ctx.notes.append(f"chain generator: {type(e).__name__} {str(e)[:60]}")
+            continue
+        merged = b.merge_chains()
+        x, c = inputs_for(rng, b.shape, b.cond_shape)
+        info = ctx.model([f"mergeinfo {term}"])[0].split()
+        errs = []
+        if any(isinstance(k, fb.Chain) for k in merged.bijections):
+            errs.append("merge_chains left a nested Chain")
+        if (tuple(merged.shape), merged.cond_shape) != (tuple(b.shape), b.cond_shape):
+            errs.append(f"merge_chains changed (shape, cond_shape) from {(b.shape, b.cond_shape)} to {(merged.shape, merged.cond_shape)}")
+        struct_ok = info == [str(len(merged.bijections)), "false"]
+        n_kids = len(b.bijections)
+        lo = [None, 0, 1, -1, -2, n_kids][G.ri(0, 5)]
+        hi = [None, n_kids, -1, 1, 2][G.ri(0, 4)]
+        try:
+            sl = b[lo:hi]
+        except Exception:  # noqa: BLE001   (empty slice: Chain([]) raises)
+            sl = None
+        k = G.ri(0, n_kids - 1)
+        if b[k] is not b.bijections[k]:
+            errs.append(f"chain[{k}] is not the {k}-th bijection")
+        reqs = [f"runmerged {m} {term} {S.s_tensor(x)} {S.s_otensor(c)}" for m in METHODS]
+        reqs += [f"runslice {m} {term} {S.s_oint(lo)} {S.s_oint(hi)} {S.s_tensor(x)} {S.s_otensor(c)}" for m in METHODS]
+        outs = [S.parse_run(l) for l in ctx.model(reqs)]
+        for j, m in enumerate(METHODS):
+            orig, mer = call_impl(b, m, x, c), call_impl(merged, m, x, c)
+            u.count(term + m + str(x.tolist()), nontrivial=len(merged.bijections) != n_kids, tag=f"merge:depth{1 + i % 3}")
+            if orig[0] != "ok" or mer[0] != "ok" or not np.array_equal(orig[1], mer[1]) or (orig[2] is not None and not close_ld(orig[2], mer[2])):
+                errs.append(f"merge_chains changed {m}: {str(orig)[:120]} -> {str(mer)[:120]}")
+            agree = same(mer, outs[j]) and struct_ok
+            if sl is not None:
+                sc = sl.cond_shape
+                si = call_impl(sl, m, x, None if sc is None else c)
+                agree = agree and same(si, outs[4 + j] if sc is not None or c is None else S.parse_run(
+                    ctx.model([f"runslice {m} {term} {S.s_oint(lo)} {S.s_oint(hi)} {S.s_tensor(x)} none"])[0]))
+                u.count(term + m + f"[{lo}:{hi}]", nontrivial=True, tag="slice")
+            else:
+                agree = agree and outs[4 + j][0] == "err"
+            if errs or not agree:
+                u.disagreements += not agree
+                ctx.violation(sig=f"chain:{m}:{'oracle' if errs else 'model-mismatch'}",
+                              what="; ".join(errs) if errs else f"model merge/slice differs from the implementation: mergeinfo {info} vs {len(merged.bijections)} children; "
+                                                                 f"merged impl {str(mer)[:100]} model {str(outs[j])[:100]}; slice [{lo}:{hi}]",
+                              case=jcase(spec, m, x, c), found_input=bool(errs), unit=u.name, broken="chain-unit / C08_merge_chains_same_partial / C08_chain_slice_same",
+                              reproducer=REPRO)
+        # composition: chain[:i] then chain[i:] is the chain (forward direction)
+        if n_kids >= 2:
+            i0 = G.ri(1, n_kids - 1)
+            a, bb = b[:i0], b[i0:]
+            y1 = call_impl(a, "transform_and_log_det", x, None if a.cond_shape is None else c)
+            if y1[0] == "ok":
+                y2 = call_impl(bb, "transform_and_log_det", y1[1], None if bb.cond_shape is None else c)
+                whole = call_impl(b, "transform_and_log_det", x, c)
+                if y2[0] != "ok" or whole[0] != "ok" or not np.array_equal(y2[1], whole[1]) or not close_ld(y1[2] + y2[2], whole[2]):
+                    ctx.violation(sig="chain:slice-composition", what=f"chain[:{i0}] followed by chain[{i0}:] differs from the chain",
+                                  case=jcase(spec, "transform_and_log_det", x, c), found_input=True, unit=u.name, reproducer=REPRO)
+
+
+def merge_transforms_unit(ctx, u, G, rng, n):
+    """Transformed.merge_transforms never changes the density (oracle only)"""
+    f = fj()
+    jnp = f["jnp"]
+    import flowjax.distributions as fd
+
+    for i in range(n):
+        sh = G.shape(G.ri(0, 2))
+        d = fd.StandardNormal(tuple(sh))
+        specs = []
+        for _ in range(G.ri(2, 3)):
+            sp = G.tree(sh, None, G.ri(0, 1)) if rng.random() < 0.6 else nested_chain(G, sh, None, 1)
+            specs.append(sp)
+            d = fd.Transformed(d, build(sp))
+        m = d.merge_transforms()
+        x = jnp.asarray(rng.integers(-3, 4, size=tuple(sh)).astype(np.float64))
+        lp, lm = float(d.log_prob(x)), float(m.log_prob(x))
+        u.count(str(specs) + str(np.asarray(x).tolist()), nontrivial=True, tag="merge_transforms")
+        bad = []
+        if isinstance(m.base_dist, fd.AbstractTransformed):
+            bad.append("merge_transforms left a nested Transformed")
+        if not (abs(lp - lm) <= 1e-9 * max(1.0, abs(lp)) or (lp != lp and lm != lm) or lp == lm):
+            bad.append(f"log_prob changed from {lp} to {lm}")
+        if bad:
+            ctx.violation(sig="merge_transforms", what="; ".join(bad), case={"specs": specs, "x": np.asarray(x).tolist()}, found_input=True,
+                          unit=u.name, reproducer="see case.specs (harness.c08.build) nested in Transformed(StandardNormal)")
 
 
 def run(ctx):
@@ -717,6 +859,11 @@ def run(ctx):
                                "sig_of is Err; all count as non-trivial")
     ud = ctx.unit("directed-unit", "every combinator x every rank 1-3 x EVERY axis in -(r+1)..r (Concatenate, Stack, Vmap condition axis), "
                                    "children distinct; plus Partial with every index kind")
+    um = ctx.unit("chain-unit", "nested Chains: merge_chains() and chain[lo:hi] on the real object compute the same function (oracle) and "
+                                "agree with Model.Bij.merge_chains / chain_slice; chain[:i] then chain[i:] composes to the chain")
+    ut = ctx.unit("merge-transforms-unit", "Transformed.merge_transforms keeps log_prob and removes the nesting (oracle only; no model)")
+    chain_unit(ctx, um, G, rng, 40 if ctx.quick else 800)
+    merge_transforms_unit(ctx, ut, G, rng, 15 if ctx.quick else 300)
     n_trees = 260 if ctx.quick else 5000
     n_bad = 160 if ctx.quick else 3000
     # ---- directed: all axes
@@ -741,6 +888,8 @@ def run(ctx):
         sh = G.shape(G.ri(1, 3))
         idx, sub = G.index(sh)
         check_tree(ctx, ud, ["partial", idx, sh, G.tree(sub, [2], 0)], rng, f"partial:{idx[0]}")
+    for spec, tag in directed_ctor_specs(G, ctx.quick):
+        check_tree(ctx, uc, spec, rng, tag)
     # ---- random trees
     for i in range(n_trees):
         sh = G.shape()
